@@ -37,8 +37,8 @@ theorem C02_total_no_tables (cif : WCif) (hok : containersOk cif) (hnt : ¬ cont
 
 /-- **C02_line_bound** (whole documents, both output versions, every walk order).  Whenever `cif_write` succeeds on a CIF
     whose block / frame codes leave room for `data_` / `save_`, whose data names fit a line, whose strings hold neither NUL
-    nor CR and whose number texts are one line of at most 2048 units (`containersL`; the last condition is the open finding
-    F-number-overlong), no line of the output is longer than 2048 code units — hence 2048 characters — and the output begins
+    nor CR and whose number texts are one line of BMP units of ANY length (`containersL`; a number text longer than a line is
+    written as a folded text field since da3325d), no line of the output is longer than 2048 code units — hence 2048 characters — and the output begins
     with the version comment.  Proved through the column-tracking invariant `LineOk`: `last_column` never underestimates the
     true column, every wrap decision is therefore safe, and every line break resets both. -/
 theorem C02_line_bound (version : Nat) (cif : WCif) (out : Str) (h : containersL cif)
